@@ -73,7 +73,8 @@ type gen struct {
 	inLoop  int
 	results []string
 	xgo     []XGoPkg
-	hdr     bool // generating the header of if/for/switch: no composite literals of named struct types
+	helper  string // func(int, func(int) int) int declared by the program
+	hdr     bool   // generating the header of if/for/switch: no composite literals of named struct types
 }
 
 type gfunc struct {
@@ -622,7 +623,7 @@ func (g *gen) stmt(b *sb, d int) {
 		return
 	}
 	g.budget--
-	k := g.c.Int(26)
+	k := g.c.Int(28)
 	if d <= 0 && k >= 8 {
 		k = g.c.Int(8)
 	}
@@ -1006,6 +1007,28 @@ func (g *gen) stmt(b *sb, d int) {
 		} else {
 			b.line("_ = %s", g.expr("float64", 2))
 		}
+	case 26, 27: // a closure with statements passed as an argument: its body is compiled
+		// while operands of the enclosing call are pending on the stack
+		if g.helper == "" || g.shadowed(g.helper) {
+			b.line("_ = %s", g.expr("int", 2))
+			return
+		}
+		x := g.fresh(false)
+		b.line("_ = %s(%s, func(%s int) int {", g.helper, g.expr("int", 1), x)
+		b.ind++
+		g.push()
+		g.declare(x, "int")
+		saved := g.results
+		g.results = []string{"int"}
+		loop := g.inLoop
+		g.inLoop = 0
+		g.stmts(b, 1+g.c.Int(3), d-1)
+		b.line("return %s", g.expr("int", 2))
+		g.inLoop = loop
+		g.results = saved
+		g.pop()
+		b.ind--
+		b.line("})")
 	case 25: // field / index / pointer assignment
 		if len(g.structs) > 0 {
 			s := g.structs[g.c.Int(len(g.structs))]
@@ -1159,6 +1182,16 @@ func Generate(c Chooser, o GenOptions) *Program {
 				g.pop()
 			})
 		}
+	}
+	// a higher-order helper, so that closures with statements appear as call arguments
+	if chance(c, 3, 4) {
+		g.helper = g.fresh(true)
+		h := g.helper
+		emit(func(b *sb) {
+			b.line("func %s(a int, f func(int) int) int {", h)
+			b.line("\treturn f(a)")
+			b.line("}")
+		})
 	}
 	// named basic type with const block
 	if chance(c, 1, 2) {
